@@ -64,7 +64,7 @@ func relayOf(n, e ssa.Value, p *ssa.Parameter) (*ssa.Call, bool) {
 		return nil, false
 	}
 	f := CalleeFunc(c)
-	if f == nil || f.Name() != "Write" || !isWriteSig(f.Type().(*types.Signature)) {
+	if f == nil || FNm(f) != "Write" || !isWriteSig(f.Type().(*types.Signature)) {
 		return nil, false
 	}
 	args := c.Call.Args // for invoke: only args; for static method: recv first
@@ -114,7 +114,7 @@ func checkC13(c *Ctx) {
 	writers := c.MethodsNamed("Write", isWriteSig)
 	seenExempt := 0
 	for _, fn := range writers {
-		name := fn.String()
+		name := FStr(fn)
 		if why, ok := exempt[name]; ok {
 			seenExempt++
 			c.Triv("R13.1", name, "exempt", fn.Pos(), "exempt: %s", why)
@@ -162,7 +162,7 @@ func checkC13(c *Ctx) {
 	}
 	ms := c.Method(CorePath, "multiWriteSyncer", "Sync")
 	if c.Anchor("R13.2", "zapcore.multiWriteSyncer.Sync", ms != nil) {
-		name := ms.String()
+		name := FStr(ms)
 		selSync := func(cl ssa.CallInstruction) bool {
 			return IsCallTo(cl, "(go.uber.org/zap/zapcore.WriteSyncer).Sync") && cl.Common().IsInvoke()
 		}
@@ -273,7 +273,7 @@ func lockedSyncerMethods(c *Ctx, rule string) {
 // description ends in mutexSuffix) write-held on every path, and at every
 // Return the mutex is released (or a deferred unlock exists).
 func LockedAcross(c *Ctx, rule string, fn *ssa.Function, sel func(ssa.CallInstruction) bool, mutexSuffix string) {
-	name := fn.String()
+	name := FStr(fn)
 	// by path exploration (helpers, and function literals handed to them, explored inline; deferred unlocks run at
 	// their function's return): every selected inner call happens while the mutex is write-held, and the mutex is
 	// released when fn returns
@@ -561,11 +561,11 @@ func c13ErrFoldShape(c *Ctx, fn *ssa.Function, loopCall, errSrc *ssa.Call, rule,
 }
 
 func c13MultiWrite(c *Ctx, fn *ssa.Function) {
-	name := fn.String()
+	name := FStr(fn)
 	p := writeParam(fn)
 	isInner := func(cl ssa.CallInstruction) bool {
 		f := CalleeFunc(cl)
-		return f != nil && f.Name() == "Write" && isWriteSig(f.Type().(*types.Signature)) && cl.Common().IsInvoke()
+		return f != nil && FNm(f) == "Write" && isWriteSig(f.Type().(*types.Signature)) && cl.Common().IsInvoke()
 	}
 	okV, why, wc, _ := VisitsAll(fn, isInner, fn.Params[0])
 	if wc == nil {
@@ -772,7 +772,7 @@ func c13Wrappers(c *Ctx) {
 	wws := c.Method(CorePath, "writerWrapper", "Sync")
 	if c.Anchor("R13.3", "zapcore.writerWrapper.Sync", wws != nil) {
 		for k, r := range Returns(wws) {
-			c.Check(IsNilConst(r.Results[0]), "R13.3", wws.String(), "return#"+itoa(k+1), r.Pos(), "the added Sync is a no-op returning nil")
+			c.Check(IsNilConst(r.Results[0]), "R13.3", FStr(wws), "return#"+itoa(k+1), r.Pos(), "the added Sync is a no-op returning nil")
 		}
 		n := 0
 		AllInstrs(wws, func(i ssa.Instruction) {
@@ -780,7 +780,7 @@ func c13Wrappers(c *Ctx) {
 				n++
 			}
 		})
-		c.Check(n == 0, "R13.3", wws.String(), "no-effects", wws.Pos(), "the added Sync performs no calls (%d found)", n)
+		c.Check(n == 0, "R13.3", FStr(wws), "no-effects", wws.Pos(), "the added Sync performs no calls (%d found)", n)
 	}
 	// lockedWriteSyncer.Sync relays
 	ls := c.Method(CorePath, "lockedWriteSyncer", "Sync")
@@ -809,7 +809,7 @@ func c13Wrappers(c *Ctx) {
 				return "ret-other"
 			},
 		})
-		c.Check(!trunc && len(seqs) > 0 && len(bad) == 0, "R13.3", ls.String(), "return#1", ls.Pos(), "on every path the inner Sync's error is returned unchanged (offending: %v)", bad)
+		c.Check(!trunc && len(seqs) > 0 && len(bad) == 0, "R13.3", FStr(ls), "return#1", ls.Pos(), "on every path the inner Sync's error is returned unchanged (offending: %v)", bad)
 	}
 }
 
@@ -820,7 +820,7 @@ func c13WrapOrKeep(c *Ctx, fn *ssa.Function, wrapper *types.Named, field, assert
 	if !c.Anchor("R13.3", "zapcore wrap-or-keep constructor", fn != nil && wrapper != nil && len(fn.Params) == 1) {
 		return
 	}
-	name := fn.String()
+	name := FStr(fn)
 	arg := fn.Params[0]
 	resolve := func(st *ConcState, v ssa.Value) ssa.Value {
 		for k := 0; k < 16 && v != nil; k++ {
@@ -968,7 +968,7 @@ func c13ReturnsByPaths(fn *ssa.Function, p *ssa.Parameter) (bool, string) {
 			if en, ok1 := n.(*ssa.Extract); ok1 {
 				if ee, ok2 := e.(*ssa.Extract); ok2 && en.Tuple == ee.Tuple && en.Index == 0 && ee.Index == 1 {
 					if cl, isC := en.Tuple.(*ssa.Call); isC {
-						if f := CalleeFunc(cl); f != nil && f.Name() == "Write" {
+						if f := CalleeFunc(cl); f != nil && FNm(f) == "Write" {
 							args := cl.Call.Args
 							if !cl.Call.IsInvoke() && len(args) > 0 {
 								args = args[1:]
